@@ -376,7 +376,11 @@ def g_var(rng, i: int, wf: bool) -> Dict[str, Any]:
     pool = [c08.g_value(rng, cls, rng.random() < 0.6, aware) for _ in range(4)]
     pool = [p for p in pool if not (isinstance(p, float) and p != p)]
     pool = [0.0 if (isinstance(p, float) and p == 0) else p for p in pool]   # allowed_values is a set: -0.0 == 0.0
-    texts = [c08.wire_py(p) for p in pool]
+    uniq: List[Any] = []                 # allowed_values is a set: keep one representative per Python-equality class
+    for p in pool:                       # (aware times/date-times with different offsets can be equal)
+        if not any(p == q for q in uniq):
+            uniq.append(p)
+    texts = [c08.wire_py(p) for p in uniq]
     texts = [t for t in texts if t != "" and "\r" not in t and t == t.strip()] or ["x1"]
     v: Dict[str, Any] = {"name": g_name(rng, i), "type": name, "seAttr": None, "seElem": None, "default": None,
                          "range": None, "allowed": None}
@@ -556,8 +560,8 @@ CORPUS = corpus()
 
 
 def generate(ctx: Ctx) -> List[Case]:
-    n_wf = 2500 if ctx.thorough else 260
-    n_mal = 700 if ctx.thorough else 90
+    n_wf = 12000 if ctx.thorough else 600
+    n_mal = 3000 if ctx.thorough else 200
     cases: List[Case] = []
     i = 0
     for rec in CORPUS:
